@@ -35,7 +35,7 @@ REQUIRED_THEOREMS = ['this_in_iso_week', 'next_is_following_week', 'last_is_prec
 REQUIRED_THEOREMS += ['swift_values_all_texts', 'get_hour_stays_in_day', 'special_day_words', 'english_swift_day_table',
                       'next_words_swift_plus_one', 'next_words_year_plus_one', 'spanish_next_year_partial',
                       'last_words_swift_minus_one', 'this_words_swift_zero', 'next_last_disjoint',
-                      'extractor_last_words_swift_minus_one_partial', 'german_last_words_not_previous',
+                      'extractor_last_words_swift_minus_one', 'prefix_snapshot_is_the_unrepaired_tree', 'german_last_words_not_previous',
                       'italian_last_words_partial', 'is_future_english', 'is_last_cardinal_english']
 RULE = ('unit: every ordinal of 1950..2090 + stride 97 over 0001..9999 (thorough: every ordinal) for ord2ymd/weekday/'
         'isocalendar; datedelta shim x 22 deltas on boundary days + all days of 2019-2021; this/next/last on every day of '
